@@ -11,8 +11,9 @@ Open Scope Z_scope.
 
 (* first atom of a component: `mask1 & bits1 and mask2 & bits2 == bits2 and mask3 & bits3 == bits3 and mask4 & bits4`
    on the words written by the two encoders decides QueryElement/AnyElement/ListElement/AnyMetal.__eq__, for every
-   query and atom inside the representable range (elements 1..116, charge -4..4, isotope offset -8..8, H 0..4,
-   neighbours/heteroatoms 0..14, hybridisation 1..4, ring sizes 3..65; tuples of ANY length) *)
+   query and atom inside the representable range (elements 1..116, charge -4..4, ATOM isotope offset -8..8 and H 0..4 -
+   both guaranteed by the tables / by the guard of get_mapping -, neighbours/heteroatoms 0..14, hybridisation 1..4, ring
+   sizes 3..65; ANY query isotope, query hydrogens 0..14, AnyMetal against every element; tuples of ANY length) *)
 Theorem C09_mask_match_first_correct : forall q a,
   query_ok q = true -> atom_ok a = true -> elem_hyp q (la_num a) ->
   mask_match_first (enc_qatom q None) (enc_atom a) = match_atom q a.
@@ -88,31 +89,49 @@ Theorem C09_mask_search_example :
 Proof. exact mask_search_example. Qed.
 Print Assumptions C09_mask_search_example.
 
-(* the hypotheses cannot be dropped: four divergences of the unchanged code (known findings of C09) *)
-Theorem C09_anymetal_mask_refuted :
-  query_ok (QMetal [] []) = true /\ atom_ok rn_atom = true /\
-  match_atom (QMetal [] []) rn_atom = false /\
-  mask_match_first (enc_qatom (QMetal [] []) None) (enc_atom rn_atom) = true.
-Proof. exact anymetal_mask_refuted. Qed.
-Print Assumptions C09_anymetal_mask_refuted.
+(* ONE COMPONENT / SCOPE CALL OF QueryIsomorphism.get_mapping, guard included: with `_cython=True` and with `_cython=False`
+   the same sequence of dictionaries is yielded.  A molecule with an unknown hydrogen count (None) takes the reference path
+   by the guard and needs no hypothesis at all; any other molecule must be well formed and inside the representable range. *)
+Theorem C09_get_mapping_equiv : forall rq rm scope fuel,
+  rq <> [] -> wf_query rq -> (has_unknown_h rm = false -> wf_mol rm) -> in_range_pair rq rm ->
+  component_mappings true rq rm scope fuel = component_mappings false rq rm scope fuel.
+Proof. exact get_mapping_equiv. Qed.
+Print Assumptions C09_get_mapping_equiv.
 
-Theorem C09_hydrogens_none_refuted :
-  query_ok h0_query = true /\ match_atom h0_query noh_atom = false /\
-  mask_match_first (enc_qatom h0_query None) (enc_atom noh_atom) = true.
-Proof. exact hydrogens_none_refuted. Qed.
-Print Assumptions C09_hydrogens_none_refuted.
+Theorem C09_get_mapping_equiv_b : forall rq rm scope fuel, gm_hyps_ok rq rm = true ->
+  component_mappings true rq rm scope fuel = component_mappings false rq rm scope fuel.
+Proof. exact get_mapping_equiv_b. Qed.
+Print Assumptions C09_get_mapping_equiv_b.
 
-Theorem C09_hydrogens_over_4_refuted :
-  atom_ok c4_atom = true /\ match_atom h05_query c4_atom = false /\
-  mask_match_first (enc_qatom h05_query None) (enc_atom c4_atom) = true.
-Proof. exact hydrogens_over_4_refuted. Qed.
-Print Assumptions C09_hydrogens_over_4_refuted.
+Theorem C09_unknown_h_takes_reference_path : forall rm a, In a rm -> la_h (ra_atom a) = None ->
+  uses_mask_path true rm = false.
+Proof. exact unknown_h_takes_reference_path. Qed.
+Print Assumptions C09_unknown_h_takes_reference_path.
 
-Theorem C09_query_isotope_offset_refuted :
-  atom_ok c_atom = true /\ match_atom c21_query c_atom = false /\
-  mask_match_first (enc_qatom c21_query None) (enc_atom c_atom) = true.
-Proof. exact query_isotope_offset_refuted. Qed.
-Print Assumptions C09_query_isotope_offset_refuted.
+(* non-vacuity of the guard: raw pyridine-like N (hydrogens None) against [N;h0]: both flags yield nothing, whereas the mask
+   path alone would have accepted the atom *)
+Theorem C09_get_mapping_example :
+  let rm := [mkRA 1 (mkLA 6 None 0 false 1 4 (Some 1) 1 [6]) [(1, mkLB 4 true)];
+             mkRA 2 noh_atom [(0, mkLB 4 true)]] in
+  let rq := [mkRQ 1 0 (QElem 7 None (mkQX 0 false [] [] [0] [] [])) None []] in
+  has_unknown_h rm = true /\ uses_mask_path true rm = false /\
+  component_mappings true rq rm [true; true] 10 = Some [] /\ component_mappings false rq rm [true; true] 10 = Some [] /\
+  option_map (map (mask_mapping (enc_query rq) (enc_mol rm))) (mask_search (enc_query rq) (enc_mol rm) [true; true] 10) = Some [[(1, 2)]].
+Proof. exact get_mapping_example. Qed.
+Print Assumptions C09_get_mapping_example.
+
+(* the witnesses of the former findings (fixed in the code): AnyMetal vs Rn, query hydrogens (0, 5) vs [C-4], query isotopes
+   21 and 30 vs plain carbon lie INSIDE the hypotheses now, and both sides reject them *)
+Theorem C09_fixed_findings_examples :
+  query_ok (QMetal [] []) = true /\ atom_ok rn_atom = true /\ elem_hyp (QMetal [] []) 86 /\
+  match_atom (QMetal [] []) rn_atom = false /\ mask_match_first (enc_qatom (QMetal [] []) None) (enc_atom rn_atom) = false /\
+  query_ok h05_query = true /\ atom_ok c4_atom = true /\
+  match_atom h05_query c4_atom = false /\ mask_match_first (enc_qatom h05_query None) (enc_atom c4_atom) = false /\
+  query_ok c21_query = true /\ query_ok c30_query = true /\ atom_ok c_atom = true /\
+  match_atom c21_query c_atom = false /\ mask_match_first (enc_qatom c21_query None) (enc_atom c_atom) = false /\
+  match_atom c30_query c_atom = false /\ mask_match_first (enc_qatom c30_query None) (enc_atom c_atom) = false.
+Proof. exact fixed_findings_examples. Qed.
+Print Assumptions C09_fixed_findings_examples.
 
 (* non-vacuity *)
 Theorem C09_mask_match_example :
